@@ -68,11 +68,11 @@ class ValueFlow(object):
     """In an unsummarised handler, robustness values may be compared, copied, negated, passed to min/max -- never added or scaled.
     Discrete time: names are typed by flow as LIST (of robustness values) or SCALAR (one value); `+` on lists is concatenation."""
 
-    def __init__(self, fnode, dense):
+    def __init__(self, fnode, dense, seed=None):
         self.f = fnode
         self.dense = dense
         self.typer = norm.ValueTyper(fnode) if dense else None
-        self.kind = {}   # name / self.attr -> 'list' | 'scalar'
+        self.kind = dict(seed or {})   # name / self.attr -> 'list' | 'scalar'
         if not dense:
             if fnode.name in ('update', 'update_final'):
                 for p in [a.arg for a in fnode.args.args[1:]]:
@@ -116,6 +116,12 @@ class ValueFlow(object):
             return 'scalar' if any(self.kind_of(a) for a in e.args) else None
         if isinstance(e, ast.Call) and isinstance(e.func, ast.Name) and e.func.id in ('list', 'reversed', 'tuple') and e.args:
             return self.kind_of(e.args[0])
+        if isinstance(e, ast.Call) and isinstance(e.func, ast.Name) and e.func.id in [a.arg for a in self.f.args.args]:
+            # a function handed in as a parameter (min / max) applied to values
+            return 'scalar' if any(self.kind_of(a) for a in e.args) else None
+        if isinstance(e, ast.IfExp):
+            l, r = self.kind_of(e.body), self.kind_of(e.orelse)
+            return 'list' if 'list' in (l, r) else (l or r)
         if isinstance(e, ast.BinOp) and isinstance(e.op, ast.Add):
             l, r = self.kind_of(e.left), self.kind_of(e.right)
             if 'list' in (l, r):
